@@ -119,9 +119,14 @@ def framer_paths(cx, kind, may_raise=None, consts=None, default_kwargs=False):
                 if isinstance(sub.func, ast.Name) and sub.func.id == cbname:
                     fp.deliveries.append(i)
             elif k == 'assign':
-                sk = shrink_kind(ev.node, ev.a, getattr(ev, '_sub', None))
-                if sk in ('clear', 'slice'):
-                    fp.shrinks.append((i, sk))
+                sub_ = getattr(ev, '_sub', None)
+                pairs = [(ev.a, sub_)]
+                if isinstance(ev.a, (ast.Tuple, ast.List)) and isinstance(sub_, (ast.Tuple, ast.List)) and len(ev.a.elts) == len(sub_.elts):
+                    pairs = list(zip(ev.a.elts, sub_.elts))       # a, self._buffer = x, self._buffer[n:]
+                for tgt_, val_ in pairs:
+                    sk = shrink_kind(ev.node, tgt_, val_)
+                    if sk in ('clear', 'slice'):
+                        fp.shrinks.append((i, sk))
             elif k == 'cond':
                 sub = ev._sub
                 inner = sub
